@@ -115,3 +115,9 @@ Proof.
   - destruct (ovf_checks pf); [discriminate|]. intros [= <-]. apply wrap_range.
 Qed.
 
+
+Lemma u8_iff z : in_range U8 z = true <-> 0 <= z <= 255.
+Proof. rewrite in_range_iff. change (tmin U8) with 0. change (tmax U8) with 255. reflexivity. Qed.
+
+Lemma ck_sub_u8_ok pf a b : in_range U8 a = true -> 0 <= b <= a -> ck_sub pf U8 a b = Val (a - b).
+Proof. intros Ha Hb. apply u8_iff in Ha. unfold ck_sub. apply ck_ok. apply u8_iff. lia. Qed.
